@@ -51,6 +51,7 @@ func sharedState(a, b *genetics.Genome) string {
 	}
 	for _, cg := range a.ControlGenes {
 		nodes[cg.ControlNode] = true
+		addArr(cg.ControlNode.Params, fmt.Sprintf("control node %d params", cg.ControlNode.Id))
 		for _, l := range cg.ControlNode.Incoming {
 			links[l] = true
 		}
@@ -105,6 +106,12 @@ func sharedState(a, b *genetics.Genome) string {
 	for _, cg := range b.ControlGenes {
 		if nodes[cg.ControlNode] {
 			return fmt.Sprintf("control node %d object is shared", cg.ControlNode.Id)
+		}
+		if cg.ControlNode.Trait != nil && traits[cg.ControlNode.Trait] {
+			return fmt.Sprintf("control node %d of the copy points to a trait object of the source", cg.ControlNode.Id)
+		}
+		if s := chkArr(cg.ControlNode.Params, fmt.Sprintf("control node %d params", cg.ControlNode.Id)); s != "" {
+			return s
 		}
 		for _, l := range cg.ControlNode.Incoming {
 			if links[l] || nodes[l.InNode] {
